@@ -16,7 +16,7 @@ TRUSTED = ['cbmc 6.11.0 C++ front end and SAT back end',
            'sorted-array std::set stub (capacity 5) ordered by the real comparator text; backing-buffer stub whose deletion '
            'replicates the accounting of ~modeBuffer_t (proved in C05); reference rings counted, not linked (C01)',
            'range-for / auto / delete / io::stdout rewrite rules (must-fire)']
-ASSUMPTIONS = ['the comparator orders unrelated pointers with < (unspecified, not undefined, in C++); CBMC\'s same-object check on it is ignored',
+ASSUMPTIONS = ['the comparator\'s tie-break on object addresses is replaced by a tie-break on ghost object ids (must-fire rule): any total order on distinct objects is a valid implementation choice',
                'histories: <= 3 reservations + optional slice + releases, then one operation (bounded); request sizes < 2^10 (quick) / 2^12 (thorough)',
                'alignments enumerated: quick {128 -> 8, 8 -> 24}; thorough adds {1, 24, 4096}',
                'virtual calls resolve to the Serial-mode pool']
@@ -41,7 +41,7 @@ def build(ctx, prop=None):
                 defines=['ALIGN=%d' % a, 'ALIGN2=%d' % a2, 'SZ_BITS=%d' % bits, 'VERIF_OP=%d' % op],
                 min_obligations=10, functions=fns, canary='CANARY', canary_label='canary', strength='bounded',
                 bound='histories of <= 3 reservations (+ slice, + releases) then one %s; sizes < 2^%d; alignment %d' % (name, bits, a),
-                object_bits=10, timeout=1500, ignore=(r': (%s|C05): |same object violation in a < b' % other) if prop != 'C04' else (r': %s: |same object violation in a < b' % other),
+                object_bits=10, timeout=1500, ignore=(r': (%s|C05): ' % other) if prop != 'C04' else (r': %s: ' % other),
                 checks=['--bounds-check', '--pointer-check', '--div-by-zero-check', '--undefined-shift-check', '--no-signed-overflow-check'],
                 param='alignment %d, operation %s' % (a, name), replay=replay_C03.replay))
     return groups
